@@ -39,6 +39,13 @@ def run(tier, seed):
                         any(c in str(f['features']) for c in ('class_LogLikelihood', 'class_ProblemModellingController'))
                         and ('s1' in f['manifestation'] or f['clause'] == 'Evaluable')])
         cov['tlc_runs'] = cov['tlc_runs'] + fx['runs']
+        # the gradient of the filter posterior (population, free noise scales on either error scale, simulated individuals,
+        # noise realisations; one or two observables): the shared FilterPosterior run (see C13), judged on its gradient clause
+        from . import check_c13
+        fp = cached('filterposterior', tier, seed, lambda: check_c13._compute(tier, seed))
+        for fails, cnt in fp['results']:
+            v.failures([f for f in fails if f['clause'] == 'GradSlotOK'])
+            v.count('filterposterior_gradients', cnt.get('evaluations', 0) and 1)
         cov['rule'] += ('; plus every configuration of module LogLik (individual likelihoods, all error kinds) judged on '
                         'GradIsDecl / SensSwitch / FiniteAgree; FiniteAgree = at points with one parameter set to 0 or a '
                         'negative number evaluateS1 reports a finite score iff plain evaluation does, and the same one')
@@ -53,6 +60,16 @@ def replay(path):
         fails, _ = replay_loglik.replay_case((rep['case']['config'], rep['seed']))
         for f in fails:
             if f['clause'] in loglik_run.C03_CLAUSES:
+                print('VIOLATION property=%s replay=%s' % (PROP, path))
+                print('  clause=%s manifestation=%s detail=%s' % (f['clause'], f['manifestation'], str(f['detail'])[:400]))
+                return 1
+        print('replay passes')
+        return 0
+    if 'nsamples' in rep['case']['config']:          # a configuration of module FilterPosterior (shared run)
+        from . import replay_filterposterior
+        fails, _ = replay_filterposterior.replay_case((rep['case']['config'], rep['seed']))
+        for f in fails:
+            if f['clause'] == 'GradSlotOK':
                 print('VIOLATION property=%s replay=%s' % (PROP, path))
                 print('  clause=%s manifestation=%s detail=%s' % (f['clause'], f['manifestation'], str(f['detail'])[:400]))
                 return 1
